@@ -9,7 +9,7 @@ ID = "C10"
 CRATE = "c10"
 COQ_DIR = "C10"
 COQ_DEPS = []
-PROFILES = ["debug"]
+PROFILES = ["debug", "release"]
 CORR_IMPORT = "From Coq Require Import Floats.\nFrom RlibV Require Import C10.Model C10.Corr.\nOpen Scope Z_scope."
 CASE_TYPE = "case"
 AUDIT_IMPORT = ("From Coq Require Import Reals ZArith List Bool.\n"
